@@ -916,6 +916,16 @@ func structDescriptorSSA(p *Prog) map[string]bool {
 				continue
 			}
 			fld := fieldName(fa)
+			if fld == "TypeName" && typeName(derefT(fa.X.Type())) == "Descriptor" {
+				// TypeName = c.rtype.Name(), directly or through a local
+				if call, ok := st.Val.(*ssa.Call); ok && call.Common().IsInvoke() && call.Common().Method.Name() == "Name" {
+					if ld, ok := call.Common().Value.(*ssa.UnOp); ok && ld.Op == token.MUL {
+						if fr, ok := ld.X.(*ssa.FieldAddr); ok && fieldName(fr) == "rtype" {
+							got["typename"] = true
+						}
+					}
+				}
+			}
 			if fld == "Elements" {
 				// the element slice has one slot per field: make([]Descriptor, len(c.fields))
 				if ms, ok := st.Val.(*ssa.MakeSlice); ok {
